@@ -383,3 +383,29 @@ func SortedKeys[V any](m map[string]V) []string {
 	sort.Strings(ks)
 	return ks
 }
+
+// ---------------------------------------------------------------------------
+// Garbage collection as an injected event.
+
+type gcSentinel struct {
+	flag *atomic.Bool
+	pad  [48]byte
+}
+
+// ForceGC runs a collection now and waits until the finalizer goroutine has worked through what the collection
+// found (a sentinel allocated just before is finalized last of all objects that died earlier). It uses no channel,
+// timer or lock, so it can be called inside a synctest bubble. The moment is the caller's (a tape or run-index
+// decision), which makes "a collection between these two calls" a replayable fault.
+func ForceGC() {
+	var flag atomic.Bool
+	func() {
+		s := &gcSentinel{flag: &flag}
+		runtime.SetFinalizer(s, func(x *gcSentinel) { x.flag.Store(true) })
+	}()
+	runtime.GC()
+	for i := 0; i < 20000 && !flag.Load(); i++ {
+		runtime.Gosched()
+	}
+	// objects a finalizer made reachable again are collected by the next cycle; sync.Pool victims die in two
+	runtime.GC()
+}
